@@ -196,6 +196,14 @@ func (c *ColumnImage) MarshalJSON() ([]byte, error) {
 	if t, ok := c.Value.(time.Time); ok {
 		value = t.Format(time.RFC3339Nano)
 	}
+	if s, ok := c.Value.(string); ok {
+		switch c.ColumnType {
+		case JDBCTypeChar, JDBCTypeVarchar, JDBCTypeLongVarchar:
+			// UnmarshalJSON base64-decodes text columns: write them the way []byte text is written,
+			// otherwise text that happens to be valid base64 is restored as different bytes
+			value = []byte(s)
+		}
+	}
 	return json.Marshal(&columnImageAlias{
 		KeyType:    c.KeyType,
 		ColumnName: c.ColumnName,
